@@ -2672,7 +2672,10 @@ pub fn std() -> impl Function {
             ((sum_2 - sum * sum / count) / (count - 1.)).sqrt().into()
         },
         |(intervals, _size)| match (intervals.min(), intervals.max()) {
-            (Some(&min), Some(&max)) => Ok(data_type::Float::from_interval(0., (max - min) / 2.)),
+            (Some(&min), Some(&max)) => Ok(data_type::Float::from_interval(
+                0.,
+                (max - min) / std::f64::consts::SQRT_2,
+            )),
             _ => Ok(data_type::Float::from_min(0.)),
         },
     )
@@ -2698,7 +2701,10 @@ pub fn std_distinct() -> impl Function {
             ((sum_2 - sum * sum / count) / (count - 1.)).sqrt().into()
         },
         |(intervals, _size)| match (intervals.min(), intervals.max()) {
-            (Some(&min), Some(&max)) => Ok(data_type::Float::from_interval(0., (max - min) / 2.)),
+            (Some(&min), Some(&max)) => Ok(data_type::Float::from_interval(
+                0.,
+                (max - min) / std::f64::consts::SQRT_2,
+            )),
             _ => Ok(data_type::Float::from_min(0.)),
         },
     )
@@ -2726,7 +2732,7 @@ pub fn var() -> impl Function {
         |(intervals, _size)| match (intervals.min(), intervals.max()) {
             (Some(&min), Some(&max)) => Ok(data_type::Float::from_interval(
                 0.,
-                ((max - min) / 2.).powi(2),
+                (max - min).powi(2) / 2.,
             )),
             _ => Ok(data_type::Float::from_min(0.)),
         },
@@ -2755,7 +2761,7 @@ pub fn var_distinct() -> impl Function {
         |(intervals, _size)| match (intervals.min(), intervals.max()) {
             (Some(&min), Some(&max)) => Ok(data_type::Float::from_interval(
                 0.,
-                ((max - min) / 2.).powi(2),
+                (max - min).powi(2) / 2.,
             )),
             _ => Ok(data_type::Float::from_min(0.)),
         },
